@@ -4,7 +4,7 @@
 From V.lib Require Import Base.
 From V.c09 Require Import C09Model C09Spec C09Theorems.
 From V.c10 Require Import C10Model C10RlProofs C10CttsProofs C10StscProofs C10ConsProofs C10EndProofs C10LayoutProofs
-  C10TermProofs C10OutProofs C10E2EProofs.
+  C10TermProofs C10OutProofs C10E2EProofs C10C09Proofs C10CropProofs.
 
 (* the hypotheses are satisfiable: C09's 7-sample example table with a cut inside a run, a chunk and a ctts entry *)
 Example ex_crop : consistent ex_tb = true /\
@@ -331,3 +331,57 @@ Theorem C10_stco_wrap_refuted :
   shift_co64 (shift_delta 8 8564 44) [44; 4294960044] = [8572; 4294968572].
 Proof. vm_compute. repeat split. Qed.
 Print Assumptions C10_stco_wrap_refuted.
+
+(* ... and the OUTPUT is readable through the C09 model: the shifted tables are consistent (every C09 theorem applies to
+   the output file) and TrakBox.GetRangesForSampleInterval(n, n) on them (C09's trak_get_ranges, C09_byte_ranges) returns
+   exactly one range, which holds the input's bytes of sample n *)
+Theorem C10_output_readable : forall file ts0 S h pre hdr,
+  Forall (static_ok file) ts0 -> Forall (fun t => ts_next t = 1 /\ ts_offsets t = []) ts0 -> Forall cut_ok ts0 ->
+  4611686018427387904 + 2 * pot ts0 < 18446744073709551616 ->
+  lenN pre = S -> lenN hdr = h -> S + h + 2 * pot ts0 < 18446744073709551616 ->
+  exists ts' ranges first', fill_loop (fill_fuel ts0) ts0 [] 0 0 = Ok (ts', ranges, first') /\
+    map static ts' = map static ts0 /\
+    Forall (fun t => forall tb' tb2, crop_tables (ts_tb t) (ts_last_sample t) (ts_offsets t) = Ok tb' ->
+      shift_track (shift_delta h S first') tb' = Ok tb2 ->
+      consistent tb2 = true /\
+      (forall n, 1 <= n <= ts_last_sample t ->
+         exists off off' sz, S_offset_of (ts_tb t) n = Some off /\ S_size (ts_tb t) n = Some sz /\
+                             trak_get_ranges tb2 n n = Ok [mkRange off' sz] /\
+                             sublist (pre ++ hdr ++ out_bytes file ranges) off' sz = sublist file off sz)) ts'.
+Proof. exact output_readable. Qed.
+Print Assumptions C10_output_readable.
+
+(* THE COMPOSED PROPERTY, about crop_to_time itself = findTrakEnds -> fillTrakOutsAndByteRanges -> cropStblChildren ->
+   updateChunkOffsets (the function the `virt` correspondence ties to cropMP4 on every run).  Input: any number of tracks
+   satisfying trak_pre (static_ok; stts deltas positive; the rescaled end time tet lies inside the track and at least one
+   sample starts before it).  Whenever crop_to_time succeeds, with the output file = S arbitrary bytes ++ 8-byte mdat
+   header ++ the byte ranges: for every track, k = the number of samples starting before tet (k_of), and track_out:
+   the output tables are consistent, hold k samples in chunk_of(k) chunks, their per-sample lists (durations, sizes,
+   composition offsets, sync samples, sdtp, chunk membership) are the k-prefixes of the input's (prefix_lists), every chunk
+   offset lies inside the new mdat payload, and every kept sample read through the output tables (S_offset_of, S_size and
+   C09's trak_get_ranges) yields the input's bytes. *)
+Definition ex_traks : list trak_in :=
+  [mkTI 1 1000 ex_tb;
+   mkTI 2 500 (mkTables [4] [10] None (mkStsc [mkEntry 1 2 1] 1 []) (mkStsz 3 4 []) None (Some [150; 250]) None None)].
+Example ex_trak_pre : Forall (trak_pre ex_file 52 1000) ex_traks /\
+  exists sh rg, crop_to_time ex_traks 52 1000 60 = Ok (sh, rg, [5; 3]).
+Proof.
+  split.
+  - constructor; [|constructor; [|constructor]].
+    + split; [apply static_okb_ok; vm_compute; reflexivity|]. split; [vm_compute; reflexivity|].
+      exists 52. split; [vm_compute; reflexivity|]. split; [vm_compute; reflexivity|]. vm_compute. intros H; discriminate H.
+    + split; [apply static_okb_ok; vm_compute; reflexivity|]. split; [vm_compute; reflexivity|].
+      exists 26. split; [vm_compute; reflexivity|]. split; [vm_compute; reflexivity|]. vm_compute. intros H; discriminate H.
+  - eexists. eexists. vm_compute. reflexivity.
+Qed.
+Theorem C10_crop_to_time : forall file traks et ets S pre hdr shifted ranges ks,
+  Forall (trak_pre file et ets) traks ->
+  4611686018427387904 + 2 * total_bytes traks < 18446744073709551616 ->
+  lenN pre = S -> lenN hdr = mdat_out_hdr -> S + mdat_out_hdr + 2 * total_bytes traks < 18446744073709551616 ->
+  crop_to_time traks et ets S = Ok (shifted, ranges, ks) ->
+  Forall (range_in file) ranges /\
+  exists ts0, Forall2 (state_of et ets) traks ts0 /\ Forall cut_ok ts0 /\ ks = map ts_last_sample ts0 /\
+    Forall2 (track_out file (pre ++ hdr ++ out_bytes file ranges) S mdat_out_hdr (lenN (out_bytes file ranges)))
+            (map static ts0) shifted.
+Proof. exact crop_to_time_full. Qed.
+Print Assumptions C10_crop_to_time.
